@@ -138,7 +138,7 @@ impl<'a> PairFn for Hostile<'a> {
 pub fn subs(run: &Arc<Run>) -> Vec<Arc<dyn Sub>> {
     let thorough = run.tier().is_thorough();
     let seed = run.seed();
-    run.rule("seed proofs per (field, hasher) pair (3-layer FRI with 27 queries, zero-layer FRI, auxiliary segment, Lagrange column + GKR proof, Proof::new_dummy()): every single-bit flip, every byte set to {0x00,0x01,0x7f,0x80,0xff,orig+-1}, truncation at every offset (incl. the empty string), trailing garbage, every count/length/enum field set to {0,1,orig+-1,max-1,max}, every length-prefixed component resized with and without fixing its length, every element/digest replaced, items and components exchanged, every pair of count fields set to {0,max}^2, every pair of one-byte header fields (trace shape, options, query count) over a 30-value boundary alphabet squared, items added / removed / repeated with all dependent counts and lengths kept consistent (FRI layers, remainder, OOD frame size, Lagrange frame, Merkle node vectors, query rows), GKR option added/removed/with lengths 2^40 and 2^64-1; each mutant is parsed and, if it parses, re-serialized and verified against matching public inputs under three acceptance policies and against two other sets of public inputs (different shape, minimal); oracle: the calls return - a panic (caught, with location), an abort or a runaway allocation (process death) is a violation; one mutant = one evaluation, distinct by (pair, seed, mutant index)");
+    run.rule("seed proofs per (field, hasher) pair (3-layer FRI with 27 queries, zero-layer FRI, auxiliary segment, Lagrange column + GKR proof, folding 16 with one 4-row layer, Proof::new_dummy(); thorough adds extensions, folding 4 and 8, sequence assertions): every single-bit flip, every byte set to {0x00,0x01,0x7f,0x80,0xff,orig+-1}, truncation at every offset (incl. the empty string), trailing garbage, every count/length/enum field set to {0,1,orig+-1,max-1,max}, every length-prefixed component resized with and without fixing its length, every element/digest replaced, items and components exchanged, every pair of count fields set to {0,max}^2, every pair of one-byte header fields (trace shape, options, query count) over a 30-value boundary alphabet squared, items added / removed / repeated with all dependent counts and lengths kept consistent (FRI layers, remainder, OOD frame size, Lagrange frame, Merkle node vectors, query rows), GKR option added/removed/with lengths 2^40 and 2^64-1; each mutant is parsed and, if it parses, re-serialized and verified against matching public inputs under three acceptance policies and against two other sets of public inputs (different shape, minimal); oracle: the calls return - a panic (caught, with location), an abort or a runaway allocation (process death) is a violation; one mutant = one evaluation, distinct by (pair, seed, mutant index)");
     run.assume("the harness AIR reconciles its description with whatever trace shape the proof claims (Air::new cannot fail), so panics are attributable to library code; debug assertions are enabled in this profile");
     let mut seeds = seed_points(thorough);
     seeds.push(("dummy proof", family::base_point()));
